@@ -27,6 +27,9 @@ pub enum Op {
     Kern(i32),
     /// `code` = 4a+2b+c, one of 0 1 2 3 5 6 7 11.
     Lig { code: u8, insert: Ch },
+    /// An instruction with skip_byte > 128 (unconditional stop / entry redirect of a TFM file)
+    /// met in the middle of a chain: TeX §1039 never lets it match and ends the walk.
+    Stop,
 }
 
 pub const LIG_CODES: [u8; 8] = [0, 1, 2, 3, 5, 6, 7, 11];
@@ -101,6 +104,9 @@ impl Prog {
         let mut k = self.start(left)?;
         loop {
             let ins = self.instrs.get(k)?;
+            if ins.op == Op::Stop {
+                return None;
+            }
             if ins.right == right {
                 return Some(ins.op);
             }
@@ -125,6 +131,9 @@ impl Prog {
                 continue;
             };
             while let Some(ins) = self.instrs.get(k) {
+                if ins.op == Op::Stop {
+                    break;
+                }
                 if !seen[ins.right as usize] {
                     seen[ins.right as usize] = true;
                     out.push((left, ins.right, ins.op));
@@ -190,6 +199,8 @@ pub struct RunStats {
     pub right_boundary_consumed: bool,
     /// the same (left,right) pair had a LIG step applied more than once during this run
     pub pair_revisited: bool,
+    /// LIG steps applied, by op code (index = 4a+2b+c)
+    pub form_steps: [u32; 12],
 }
 
 #[derive(Clone, Copy, Debug)]
@@ -243,12 +254,13 @@ pub fn run_cursor(
         // number of elements the cursor passes over after this step
         let passes: u8 = match op {
             None => 1,
-            Some(Op::Kern(_)) => 1,
+            Some(Op::Kern(_)) | Some(Op::Stop) => 1,
             Some(Op::Lig { code, insert }) => {
                 stats.lig_steps += 1;
                 if stats.lig_steps > max_lig_steps {
                     return Err(Diverged);
                 }
+                stats.form_steps[(code & 15).min(11) as usize] += 1;
                 if cur.is_none() {
                     stats.left_boundary_steps += 1;
                 }
@@ -538,9 +550,13 @@ pub fn run_tex(
                 let Some(ins) = t.prog.instrs.get(t.main_k) else {
                     panic!("model: lig/kern walk left the program");
                 };
-                if Some(ins.right) == t.cur_r {
+                if ins.op == Op::Stop {
+                    // skip_byte > stop_flag: no match, and skip_byte >= stop_flag ends the walk
+                    Label::MainLoopWrapup
+                } else if Some(ins.right) == t.cur_r {
                     // §1040
                     match ins.op {
+                        Op::Stop => unreachable!(),
                         Op::Kern(k) => {
                             let z = t.rt_hit;
                             t.wrapup(z);
@@ -687,6 +703,7 @@ impl PairEval {
             let (class, z, emitted) = match op {
                 // kern: f = y; emits left (unless boundary) and the kern
                 Op::Kern(_) => (Class::Simple, y, left.is_some() as u64 + 1),
+                Op::Stop => continue,
                 Op::Lig { code, insert } => match code {
                     0 => (Class::Simple, insert, 0),
                     6 => (Class::Simple, insert, left.is_some() as u64),
